@@ -252,7 +252,10 @@ pub fn cmp_pair(r: &mut Rng) -> (u128, u128) {
 /// Pairs for add/sub where the smaller operand sits at a chosen fraction of the larger one's ulp.
 pub fn add_tail_pair(r: &mut Rng) -> (u128, u128) {
     let q1 = if r.chance(2, 3) { 34 } else { 1 + r.below(34) as u32 };
-    let c1 = coeff(r, q1);
+    // a quarter of the pairs: x an exact power of ten and y of the opposite sign, so that the difference borrows across the
+    // power of ten into the binade below, where the ulp is ten times finer (y is then placed against THAT ulp)
+    let borrow = r.chance(1, 4);
+    let c1 = if borrow { pow10(q1 - 1) } else { coeff(r, q1) };
     let e1 = exponent(r);
     // after normalising x to 34 digits its ulp is 10^(e1 + q1 - 34)
     let ulp_e = e1 + q1 as i32 - 34;
@@ -268,10 +271,12 @@ pub fn add_tail_pair(r: &mut Rng) -> (u128, u128) {
         _ => coeff(r, k),
     };
     let c2 = c2.max(1);
-    let extra = if r.chance(1, 4) { r.below(40) as i32 } else { 0 };  // push y further down
+    let extra = if borrow { if r.chance(3, 4) { 1 } else { 0 } } else if r.chance(1, 4) { r.below(40) as i32 } else { 0 };  // push y further down
     let e2 = ulp_e - k as i32 - extra;
-    let x = enc(r.chance(1, 2), c1, e1);
-    let y = enc(r.chance(1, 2), c2, e2.clamp(EMIN, EMAX));
+    let s1 = r.chance(1, 2);
+    let s2 = if borrow { !s1 } else { r.chance(1, 2) };
+    let x = enc(s1, c1, e1);
+    let y = enc(s2, c2, e2.clamp(EMIN, EMAX));
     if r.chance(1, 2) { (x, y) } else { (y, x) }
 }
 
